@@ -10,13 +10,18 @@
    succeeds off the root, with exactly the subtree gone. A single-target call that reports failure (mkfile, mkdir_p / mkdir_m,
    write_all, append_all, remove, symlink, set_cwd, move_p) leaves the three indexes exactly as they were (Memfs/MkdirFail.v:
    for mkdir, a failure can only come from an existing non-directory prefix, before anything was created). chown without
-   follow refines the reference chown (Memfs/RefineChown.v). PARTIAL: copy, chmod and chown with follow are compared with the real code state-for-state
+   follow refines the reference chown (Memfs/RefineChown.v). Memfs/RefineHistory.v puts the calls together: a reference
+   filesystem working on the flat tree alone (it resolves its own path arguments against the tree's working directory), and
+   the theorem that from every well-formed kind-sound state - the fresh filesystem in particular - ANY history of mkfile,
+   mkdir_p, mkdir_m, write_all, append_all, read_all, remove, remove_all (off the root), symlink, set_cwd, chown without
+   follow, exists / is_dir / is_file / is_symlink and cwd gives call by call exactly the reference's value or error kind and
+   ends in exactly the reference's tree. PARTIAL: copy, chmod and chown with follow are compared with the real code state-for-state
    and judged on pre/post snapshots, and proved safe (no panic, well formed, kind-sound), but their reference-level
    specification is not yet a theorem. *)
 From stdpp Require Import gmap.
 From Coq Require Import NArith.
 From RV Require Import Base.Str Path.Helpers Path.Expand Memfs.State Memfs.Ops Memfs.Step Memfs.Wf Memfs.WfMore Memfs.WfMove
-  Memfs.ContentFacts Memfs.MoveFacts Memfs.Spec Memfs.Refine Memfs.Kinds Memfs.RemoveAll Memfs.RefineMore Memfs.MkdirFail Memfs.RefineChown Memfs.Walk Memfs.WalkOps Macros.Asserts.
+  Memfs.ContentFacts Memfs.MoveFacts Memfs.Spec Memfs.Refine Memfs.Kinds Memfs.RemoveAll Memfs.RefineMore Memfs.MkdirFail Memfs.RefineChown Memfs.RefineHistory Memfs.Walk Memfs.WalkOps Macros.Asserts.
 
 Theorem C01_step_no_panic : forall env m o, step env m o <> Panic.
 Proof. exact step_no_panic. Qed.
@@ -126,3 +131,20 @@ Theorem C01_chown_refines : forall env m s o p r, WF m -> co_follow o = false ->
   exists m', chown_op env m s o = Done (m', inl tt) /\ abs m' = spec_chown (abs m) p (co_recursive o) (co_uid o) (co_gid o).
 Proof. exact chown_refines. Qed.
 Print Assumptions C01_chown_refines.
+
+(* the reference filesystem on the flat tree, one call ... *)
+Theorem C01_step_refines : forall env m o t' r', WF m -> kinds_ok m -> spec_step env (abs m) o = Some (t', r') ->
+  exists m', step env m o = Done (m', r') /\ abs m' = t'.
+Proof. exact step_refines. Qed.
+Print Assumptions C01_step_refines.
+
+(* ... and any history: same results call by call, same tree at the end *)
+Theorem C01_history_refines : forall env os m t rs, WF m -> kinds_ok m -> spec_run env (abs m) os = Some (t, rs) ->
+  exists m', run env m os = Done (m', rs) /\ abs m' = t /\ WF m' /\ kinds_ok m'.
+Proof. exact history_refines. Qed.
+Print Assumptions C01_history_refines.
+
+Theorem C01_history_refines_init : forall env os t rs, spec_run env (abs mfs_init) os = Some (t, rs) ->
+  exists m', run env mfs_init os = Done (m', rs) /\ abs m' = t.
+Proof. exact history_refines_init. Qed.
+Print Assumptions C01_history_refines_init.
